@@ -45,6 +45,9 @@ REAL_VALUED = ["ADWIN", "KSWIN", "CUSUM", "PageHinkley", "GeometricMovingAverage
 HAS_WARNING = ["DDM", "RDDM", "EDDM", "ECDDWT", "HDDMA", "HDDMW", "STEPD"]
 
 
+BOCD_VIA_SETTER = [0]
+
+
 def full_params(cls: str, params: dict) -> dict:
     out = {}
     for name, _, dflt in PARAMS[cls]:
@@ -56,8 +59,15 @@ def make_config(cls: str, params: dict):
     """Build the real configuration object (raises what the real constructor raises)."""
     p = dict(params)
     if cls == "BOCD":
-        model = GaussianUnknownMean(prior_mean=p.pop("prior_mean", 0.0), prior_var=p.pop("prior_var", 1.0),
-                                    data_var=p.pop("data_var", 1.0))
+        pm, pv, dv = p.pop("prior_mean", 0.0), p.pop("prior_var", 1.0), p.pop("data_var", 1.0)
+        if zlib.crc32(repr(sorted((k, repr(v)) for k, v in params.items())).encode()) % 3 == 0:
+            # a deterministic third of the BOCD configurations set the data variance through the model's public, validated setter AFTER construction
+            # (the configured data variance is whatever the model object says when the detector copies it - anything derived from it at construction must follow)
+            model = GaussianUnknownMean(prior_mean=pm, prior_var=pv)
+            model.data_var = dv
+            BOCD_VIA_SETTER[0] += 1
+        else:
+            model = GaussianUnknownMean(prior_mean=pm, prior_var=pv, data_var=dv)
         return cd.BOCDConfig(model=model, **p)
     return getattr(cd, cls + "Config")(**p)
 
@@ -295,7 +305,7 @@ def model_raises_at_end(cls: str, params: dict, xs: list) -> bool:
     r = Runner("k", cls, params)
     if r.det is None:
         return False
-    lines = [r.lines[0]] + [f"u k {f2h(float(x))}" for x in xs]
+    lines = [r.lines[0]] + [("r k" if x is None else f"u k {f2h(float(x))}") for x in xs]     # `None` = reset()
     res = run_driver(lines)
     return len(res) == len(lines) and res[-1].startswith("err:") and not any(o.startswith("err:") for o in res[:-1])
 
